@@ -11,7 +11,7 @@
    Still open: that in_D is preserved, and that every legal move of a position in D passes refines_b
    (makemove_refines_statement). *)
 From Coq Require Import NArith ZArith List Bool.
-From Rawr Require Import Consts Bits Magic Position MoveGen MakeMove MakeStages Rules Abs AbsFacts MakeFacts MakeAbs CastleFacts CastleAbs GenSane Closure ClosureNull EpRetro GenLegal.
+From Rawr Require Import Consts Bits Magic Position MoveGen MakeMove MakeStages Rules Abs AbsFacts MakeFacts MakeAbs CastleFacts CastleAbs GenSane Closure ClosureNull EpRetro GenLegal DomainInv DomainClosed.
 Import ListNotations.
 Local Open Scope N_scope.
 
@@ -128,6 +128,22 @@ Proof. exact invR_b_sound. Qed.
 Example C02_invR_startpos : invR_b startpos = true /\ invR_b (after castle_line) = true.
 Proof. split; vm_compute; reflexivity. Qed.
 
+(* ---- the domain D of DESIGN section 4 itself (executable test in_D: validate's tests, consistent boards, rights geometry,
+   stored key = recomputed key, en-passant retro-consistency, legal material) is closed under EVERY generated move and under the
+   null move played out of check, so every position reached by play from a position of D is in D (DomainClosed.v: the invariant
+   InvR is kept; validate / consistent / rights geometry / ep_retro are recovered from it; counters, "no pawn on ranks 1/8",
+   "ep square on rank 5" and the material bounds are carried along separately) *)
+Theorem C02_D_is_closed_under_generated_moves : forall p m, in_D p = true -> In m (legal_moves p) -> in_D (makemove true p m) = true.
+Proof. exact in_D_step. Qed.
+Theorem C02_D_is_closed_under_the_null_move : forall p, in_D p = true -> in_check p = false -> in_D (makenull p) = true.
+Proof. exact in_D_null. Qed.
+Theorem C02_every_reachable_position_is_in_D : forall os p, in_D p = true -> gen_ops p os -> in_D (fold_left play_op os p) = true.
+Proof. exact in_D_ops. Qed.
+Theorem C02_domain_implies_the_invariant : forall p, in_D p = true -> invr_b p = true.
+Proof. exact in_D_invr. Qed.
+Example C02_startpos_in_D : in_D startpos = true.
+Proof. vm_compute. reflexivity. Qed.
+
 Print Assumptions C02_makenull_spec.
 Print Assumptions C02_makemove_refines_noncastling.
 Print Assumptions C02_makemove_is_its_stages.
@@ -144,3 +160,7 @@ Print Assumptions C02_invariant_is_kept_by_every_generated_move.
 Print Assumptions C02_invariant_is_kept_by_the_null_move_out_of_check.
 Print Assumptions C02_every_sequence_of_generated_moves_refines.
 Print Assumptions C02_executable_invariant_with_ep_sound.
+Print Assumptions C02_D_is_closed_under_generated_moves.
+Print Assumptions C02_D_is_closed_under_the_null_move.
+Print Assumptions C02_every_reachable_position_is_in_D.
+Print Assumptions C02_domain_implies_the_invariant.
